@@ -104,6 +104,8 @@ namespace vh
 
    struct mustif {};  // generated grammars derive from this the named rules for which the must_if control families (ctl4/ctl5) have a message
    template< typename R > inline constexpr bool is_mustif = std::is_base_of_v< mustif, R >;
+   struct mustsoft {};  // marker: the error table has a message for the rule but says raise_on_failure = false (only must< Rule > raises with it)
+   template< typename R > inline constexpr bool is_mustsoft = std::is_base_of_v< mustsoft, R >;
 
    struct foreign_exn { int tag; };                       // a type unrelated to std::exception
    template< int Tag > struct typed_exn { };              // for try_catch_type_*
@@ -237,6 +239,9 @@ namespace vh
          }
          if constexpr( is_mustif< R > ) {
             rof_lines().push_back( "ROF " + std::to_string( id ) );
+         }
+         if constexpr( is_mustsoft< R > ) {
+            rof_lines().push_back( "ROFS " + std::to_string( id ) );
          }
       }
       else {
@@ -499,7 +504,10 @@ namespace vh
    struct mi_errors
    {
       template< typename Rule >
-      static constexpr const char* message = is_mustif< Rule > ? "mustif" : nullptr;
+      static constexpr const char* message = ( is_mustif< Rule > || is_mustsoft< Rule > ) ? "mustif" : nullptr;
+      // the documented opt-out: a rule with a message whose local failure is NOT turned into a global one
+      template< typename Rule >
+      static constexpr bool raise_on_failure = is_mustif< Rule >;
    };
    template< typename R > struct mi_base4 : trace_control< 4, true, R > {};
    template< typename R > struct mi_base5 : trace_control< 5, false, R > {};
@@ -516,7 +524,7 @@ namespace vh
       }
       template< typename In, typename... S > [[noreturn]] static void raise( const In& in, S&&... st )
       {
-         if constexpr( is_mustif< R > ) {
+         if constexpr( is_mustif< R > || is_mustsoft< R > ) {
             ev_hook( 'R', Ctl, index_of< R >(), in.position() );
          }
          mi::raise( in, st... );
